@@ -1084,9 +1084,9 @@ def secondary(repo: Repo, R, noret):
     R.check(ok, rule, key_of(fcs), fcs.site, f"the implicit net copies the referenced port of the naming instance's target (its width / bundle type): {ok}", why="the implicit net has another port's width")
     fwn = repo.func(F_PORTREFS, "ResolvePortRefs.which_portref_to_name")
     g = fwn.node.args.args[1].arg
-    srt = any(isinstance(c.func, ast.Name) and c.func.id == "sorted" and len(c.args) == 1 and ast.unparse(c.args[0]) == g and any(k.arg == "key" and isinstance(k.value, ast.Lambda) and len(k.value.args.args) == 1 and ast.unparse(k.value.body) == f"{k.value.args.args[0].arg}.inst.name" for k in c.keywords) for c in au.calls_in(fwn.node, nested=True))
+    srt = any(isinstance(c.func, ast.Name) and c.func.id == "sorted" and len(c.args) == 1 and ast.unparse(c.args[0]) == g and any(k.arg == "key" and isinstance(k.value, ast.Lambda) and len(k.value.args.args) == 1 and ast.unparse(k.value.body) == f"({k.value.args.args[0].arg}.inst.name, {k.value.args.args[0].arg}.portname)" for k in c.keywords) for c in au.calls_in(fwn.node, nested=True))
     many = any(isinstance(n, ast.If) and pat.match("1 < len($L)", prov(fwn.node, n.test)) is not None and au.raises(n.body, noret) for n in au.walk_no_nested(fwn.node))
-    R.check(srt and many, rule, key_of(fwn), fwn.site, f"naming is deterministic (the unconnected port, else the alphabetically first instance: {srt}); several unconnected ports fail: {many}", why="net names depend on iteration order")
+    R.check(srt and many, rule, key_of(fwn), fwn.site, f"naming is deterministic (the unconnected port, else the first by (instance name, port name) — a total order on the group: {srt}); several unconnected ports fail: {many}", why="net names depend on iteration order")
     # (b) follow() distinguishes references from sources
     ff = repo.find_func(F_PORTREFS, "ResolvePortRefs.elaborate_module.<locals>.follow")
     ok = False
